@@ -276,7 +276,7 @@ func c47sweepLimited(k *c47sink, rd *c47readers, nAddr int) {
 
 // ---- application kv ---------------------------------------------------------------------
 
-var c47prefixes = []string{"", "a", "a\x00", "ab", "b", "c", "\xfe", "\xff", "\xff\xff", "\xff\xff\xff"}
+var c47prefixes = []string{"", "a", "a\x00", "a\xff", "ab", "b", "c", "\xfe", "\xff", "\xff\xff", "\xff\xff\xff"}
 
 // c47kvContent returns the sorted live keys and their values according to the bookkeeping.
 func c47kvContent(m *c47model) (keys []string, vals map[string][]byte) {
@@ -391,10 +391,10 @@ func c47sweepKV(k *c47sink, rd *c47readers, m *c47model, full bool) {
 		excl           map[string][]byte
 	}
 	var ccs []curCall
-	cursors := []string{"", "a", "a\x00", "ab", "\xff"}
+	cursors := []string{"", "a", "a\x00", "a\xff", "\xff"}
 	limits := []uint64{0, 1, 2}
 	if full {
-		cursors = append(cursors, "b", "\xff\xff", "0")
+		cursors = append(cursors, "ab", "b", "\xff\xff", "0")
 		limits = append(limits, 3, 100)
 	}
 	for _, p := range c47prefixes {
